@@ -83,9 +83,14 @@ class World:
             out.extend(a(I) if callable(a) else [a])
         return out
 
+    inline_prefixes = ()
+
     def policy(self, I, qual):
         self.used_policies.add(qual)
-        return self._policy.get(qual)
+        pol = self._policy.get(qual)
+        if pol is None and any(qual.startswith(p) for p in self.inline_prefixes):
+            return "inline"
+        return pol
 
     def loop_spec(self, I, qual, ordinal):
         return self._loops.get((qual, ordinal))
@@ -143,6 +148,8 @@ class World:
 
     def materialize(self, I, stream):
         """A filtered Stream as a proper sequence B (fresh), with the list semantics as assumed facts."""
+        if not stream.guards and getattr(stream, "src", None) is not None:
+            return stream.src
         raise OutOfSubset("materialize needs a typed world")
 
     def make_set(self, I, elts):
@@ -151,7 +158,14 @@ class World:
         raise OutOfSubset("set of symbolic elements needs a typed world")
 
     def make_dict(self, I, pairs):
-        raise OutOfSubset("dict with symbolic keys needs a typed world")
+        if isinstance(pairs, list):
+            d = {}
+            for k, v in pairs:
+                if isinstance(k, ZV) or (isinstance(k, SymObj) and not getattr(k, "concrete_identity", False)):
+                    raise OutOfSubset("dict with symbolic keys needs a typed world")
+                d[k] = v
+            return d
+        raise OutOfSubset("dict from a symbolic stream needs a typed world")
 
     # ---------------------------------------------------------------- globals
     def global_value(self, I, mod, name):
@@ -162,6 +176,9 @@ class World:
         except Exception:
             m = None
         if m is not None:
+            for stn in m.tree.body:  # module-level constants: NAME = <literal>
+                if isinstance(stn, ast.Assign) and len(stn.targets) == 1 and isinstance(stn.targets[0], ast.Name) and stn.targets[0].id == name and isinstance(stn.value, ast.Constant):
+                    return stn.value.value
             if name in m.functions:
                 return RepoFn(f"{mod}:{name}")
             if name in m.classes:
@@ -243,6 +260,13 @@ class World:
                 h = I.hasattr_(x, name)
                 if isinstance(h, bool):
                     return I.getattr(x, name) if h else default[0]
+                if I.pure:
+                    I.quiet += 1  # the attribute is read under the guard h; its definedness obligation is the guard itself
+                    try:
+                        v = I.getattr(x, name)
+                    finally:
+                        I.quiet -= 1
+                    return I.merge(h, v, default[0])
                 if I.branch(h):
                     return I.getattr(x, name)
                 return default[0]
@@ -302,6 +326,13 @@ class World:
         def _set(I, x=()):
             seq = I.iterable(x)
             return self.make_set(I, seq)
+
+        @reg("frozenset")
+        def _frozenset(I, x=()):
+            seq = I.iterable(x)
+            if isinstance(seq, list) and all(not isinstance(v, ZV) and (not isinstance(v, SymObj) or getattr(v, "concrete_identity", False)) for v in seq):
+                return frozenset(seq)
+            raise OutOfSubset("frozenset of symbolic elements")
 
         @reg("all")
         def _all(I, x):
@@ -375,6 +406,12 @@ class World:
             return d
         raise OutOfSubset("dict() of symbolic stream")
 
+    def empty_dict(self, I):
+        return {}
+
+    def build_tuple(self, I, elts):
+        raise OutOfSubset("tuple display with a starred symbolic sequence")
+
     def type_of(self, I, x):
         raise OutOfSubset("type(x) needs a typed world")
 
@@ -390,6 +427,8 @@ class World:
     def isinstance_(self, I, x, cls):
         if isinstance(cls, tuple):
             return I.disj([self.isinstance_(I, x, c) for c in cls])
+        if isinstance(cls, Builtin) and cls.name in ("tuple", "list", "set", "dict", "bool", "frozenset"):
+            cls = PyClassToken(cls.name)  # the builtin classes double as conversion functions
         if isinstance(x, (ZV, SymObj)) and hasattr(x, "py_isinstance"):
             r = x.py_isinstance(I, cls)
             if r is not NotImplemented:
@@ -398,6 +437,9 @@ class World:
             table = {"tuple": tuple, "int": int, "str": str, "bool": bool, "float": float, "dict": dict, "list": list, "set": set, "object": object}
             if cls.name in table and not isinstance(x, (ZV, SymObj)):
                 return isinstance(x, table[cls.name])
+            if cls.name in ("tuple", "list", "dict", "set", "str") and isinstance(x, ZV) and x.k not in ("int", "bool", "real"):
+                r = self.truth_of(I, x)  # domain values (types, handlers, ...) are not containers
+                return False
             if cls.name == "object":
                 return True
             if cls.name == "type" and not isinstance(x, (ZV, SymObj)):
@@ -446,7 +488,7 @@ class World:
             if name == "items":
                 return BoundMethod("items", lambda I: list(obj.items()))
             if name == "keys":
-                return BoundMethod("keys", lambda I: list(obj.keys()))
+                return BoundMethod("keys", lambda I: self.make_set(I, list(obj.keys())))
             if name == "values":
                 return BoundMethod("values", lambda I: list(obj.values()))
             if name == "update":
